@@ -90,6 +90,8 @@ LEAVES = {
     "theta_scale": (_pos(1, 0.5, 1.5), [1.0]),
     # a plain TimeTreeModel that is observed ONLY through node_heights (by a coalescent): nobody ever calls
     # its branch_lengths() unless a history does so explicitly
+    # base of a family of OVERLAPPING sibling views (negative int, negative slices, LongTensor, bool mask)
+    "vbase": (_pos(5, 0.3, 3.0), [0.5, 0.7, 0.9, 1.1, 1.3]),
     "heights3": (_heights, [0.6, 1.4, 2.6]),
     "theta2": (_pos(1, 1.0, 10.0), [3.0]),
 }
@@ -103,6 +105,8 @@ def _tensor(lid, v):
         return [v[i * c:(i + 1) * c] for i in range(r)]
     return v
 
+
+VIEWS = ["v_neg_int", "v_neg_slice", "v_long", "v_head", "v_bool", "v_first"]
 
 GRADS = {}  # leaf id -> True for the leaves built with requires_grad (set by `build`)
 
@@ -129,6 +133,15 @@ def spec(values: dict, with_mg94_like: bool = True):
         {"id": "scale", "type": "TransformedParameter", "transform": "torch.distributions.ExpTransform",
          "x": "log_scale"},
         {"id": "cat_ab", "type": "CatParameter", "parameters": ["cat_a", "cat_b"], "dim": -1},
+        # sibling views of `vbase` (entries 0..4).  Overlaps: v_neg_int / v_neg_slice / v_long / v_bool on entry 4,
+        # v_long / v_head on entry 3, v_bool / v_head / v_first on entry 0; v_first is disjoint from the "-1" views.
+        # ("py" items are built through the constructor: torchtree's JSON loader cannot express list indices)
+        {"id": "v_neg_int", "py": "view", "parameter": "vbase", "indices": {"int": -1}},
+        {"id": "v_neg_slice", "type": "ViewParameter", "parameter": "vbase", "indices": "-1:"},
+        {"id": "v_long", "py": "view", "parameter": "vbase", "indices": {"long": [-2, -1]}},
+        {"id": "v_head", "type": "ViewParameter", "parameter": "vbase", "indices": ":-1"},
+        {"id": "v_bool", "py": "view", "parameter": "vbase", "indices": {"bool": [True, False, False, False, True]}},
+        {"id": "v_first", "type": "ViewParameter", "parameter": "vbase", "indices": "0:2"},
         # ---------------- tree models
         {"id": "utree", "type": "UnRootedTreeModel", "newick": NEWICK, "taxa": "taxa", "branch_lengths": "bl"},
         {"id": "ttree", "type": "ReparameterizedTimeTreeModel", "newick": NEWICK, "taxa": "taxa",
@@ -191,6 +204,10 @@ def spec(values: dict, with_mg94_like: bool = True):
          "x": "theta", "parameters": {"loc": "theta_loc", "scale": "theta_scale"}},
         {"id": "prior_tail", "type": "Distribution", "distribution": "torch.distributions.Exponential",
          "x": "tail_rates", "parameters": {"rate": 1.0}},
+    ] + [
+        {"id": "prior_" + v, "type": "Distribution", "distribution": "torch.distributions.Exponential",
+         "x": v, "parameters": {"rate": 1.5}} for v in VIEWS
+    ] + [
         {"id": "joint", "type": "JointDistributionModel",
          "distributions": ["like_u", "like_t", "like_t2", "cgd", "coal", "coal2", "normal", "prior_kappa", "prior_theta",
                            "prior_tail", "ttree", "kappa"] + (["like_c"] if with_mg94_like else [])},
@@ -228,8 +245,31 @@ def build(values, small=False, grads=None, **kw):
     GRADS.update({k: True for k in (grads or [])})
     dic = {}
     for d in (spec_small(values) if small else spec(values, **kw)):
-        process_object(d, dic)
+        if "py" in d:
+            dic[d["id"]] = build_py(d, dic)
+        else:
+            process_object(d, dic)
     return dic
+
+
+def build_py(d, dic):
+    """objects torchtree's JSON loader cannot express, built through their constructors"""
+    import torch
+
+    from torchtree.core.parameter import ViewParameter
+
+    if d["py"] == "view":
+        ix = d["indices"]
+        if "int" in ix:
+            idx = ix["int"]
+        elif "slice" in ix:
+            idx = slice(*ix["slice"])
+        elif "long" in ix:
+            idx = torch.tensor(ix["long"], dtype=torch.long)
+        else:
+            idx = torch.tensor(ix["bool"], dtype=torch.bool)
+        return ViewParameter(d["id"], dic[d["parameter"]], idx)
+    raise ValueError(d["py"])
 
 
 _IMPORTED = []
